@@ -17,11 +17,17 @@ import (
 type Op struct {
 	Add bool `json:"add"`
 	V   int  `json:"v"`
+	// Clone: replace the tree by its Clone() and carry on with the clone (Add/V ignored)
+	Clone bool `json:"clone,omitempty"`
 }
 
 type Case struct {
 	Dup bool `json:"dup"` // duplicates allowed (otherwise an Add of a present value is skipped)
-	Ops []Op `json:"ops"`
+	// Weak: elements are key*1024+tag with a fresh tag per Add and the comparator looks at the key only (a weak
+	// order: compare==0 does not imply ==). Equal keys are then distinguishable in the traversals, so the shape is
+	// reconstructed exactly. Only balance is asserted in this mode (Remove may legitimately miss an element).
+	Weak bool `json:"weak,omitempty"`
+	Ops  []Op `json:"ops"`
 	// structured cases: N values, insertion pattern, deletion pattern (Ops empty)
 	N   int    `json:"n,omitempty"`
 	Ins string `json:"ins,omitempty"`
@@ -184,6 +190,9 @@ func Run(c Case) pbt.Outcome {
 	calls := 0
 	tr := avl.New(func(a, b int) int {
 		calls++
+		if c.Weak {
+			a, b = a>>10, b>>10
+		}
 		if a < b {
 			return -1
 		}
@@ -192,6 +201,7 @@ func Run(c Case) pbt.Outcome {
 		}
 		return 0
 	})
+	nextTag := 0
 	present := map[int]int{}
 	n := 0
 	every := c.Every
@@ -200,10 +210,28 @@ func Run(c Case) pbt.Outcome {
 	}
 	var out pbt.Outcome
 	var prev *shape.Node
-	sawDouble, sawSingle, maxN := false, false, 0
+	sawDouble, sawSingle, sawClone, maxN := false, false, false, 0
 	nextCheck := 0
 	for i, op := range ops {
 		v := op.V
+		if op.Clone {
+			tr = tr.Clone()
+			if tr.Len() != n {
+				return pbt.Fail("op %d: Clone of a tree with %d elements has Len %d", i, n, tr.Len())
+			}
+			sawClone = true
+			continue
+		}
+		if c.Weak {
+			if op.Add {
+				nextTag++
+				v = (op.V%8)<<10 | nextTag
+			} else if in := tr.SliceInOrder(); len(in) > 0 && op.V%5 != 0 {
+				v = in[op.V%len(in)] // an element that is in the tree
+			} else {
+				v = (op.V%8)<<10 | 1023 // absent
+			}
+		}
 		if !op.Add && v == -1 { // remove the current root
 			pre := tr.SlicePreOrder()
 			if len(pre) == 0 {
@@ -222,7 +250,7 @@ func Run(c Case) pbt.Outcome {
 			n++
 		} else {
 			ok := tr.Remove(v)
-			if ok != (present[v] > 0) {
+			if !c.Weak && ok != (present[v] > 0) {
 				return pbt.Fail("op %d: Remove(%d) = %v but model count is %d", i, v, ok, present[v])
 			}
 			if ok {
@@ -248,7 +276,7 @@ func Run(c Case) pbt.Outcome {
 			return pbt.Fail("op %d %+v: in-order has %d elements, expected %d", i, op, len(in), n)
 		}
 		var t *shape.Node
-		if c.Dup {
+		if c.Dup && !c.Weak {
 			post := tr.SlicePostOrder()
 			ok, bt := shape.Explain(pre, in, post, true)
 			if !ok {
@@ -280,7 +308,7 @@ func Run(c Case) pbt.Outcome {
 		if lv := shape.Height(t) + 1; lv > maxLevels(n) && n > 0 {
 			return pbt.Fail("after op %d %+v: %d levels for n=%d exceeds 1.4405*log2(n+2) = %d", i, op, lv, n, maxLevels(n))
 		}
-		if !c.Dup && n <= 400 {
+		if !c.Dup && !c.Weak && n <= 400 {
 			switch rotationKind(prev, t, v, op.Add) {
 			case 1:
 				sawSingle = true
@@ -291,7 +319,10 @@ func Run(c Case) pbt.Outcome {
 		prev = t
 	}
 	out.NonTrivial = sawDouble && maxN >= 7
-	if c.Dup {
+	if c.Weak {
+		out.NonTrivial = maxN >= 7
+		out.Labels = append(out.Labels, "weak-order-mode")
+	} else if c.Dup {
 		// with duplicates rotations are not classified; count by size and duplicate presence
 		dups := false
 		for _, k := range present {
@@ -301,6 +332,9 @@ func Run(c Case) pbt.Outcome {
 		}
 		out.NonTrivial = maxN >= 7 && dups
 		out.Labels = append(out.Labels, "dup-mode")
+	}
+	if sawClone {
+		out.Labels = append(out.Labels, "continued-on-a-clone")
 	}
 	if sawSingle {
 		out.Labels = append(out.Labels, "single-rotation")
@@ -365,7 +399,7 @@ var specStruct = pbt.Register(&pbt.Spec[Case]{
 
 var specHist = pbt.Register(&pbt.Spec[Case]{
 	Property: "C02", Name: "C02.hist",
-	Rule: "rapid histories of Add/Remove (values 0..U, U in {15,40,120,400}; distinct mode skips Adds of present values, dup mode allows duplicates with U in {12,40}); " + rule,
+	Rule: "rapid histories of Add/Remove (values 0..U, U in {15,40,120,400}; distinct mode skips Adds of present values, dup mode allows duplicates with U in {12,40}; a third of the histories also replace the tree by its Clone() now and then and carry on with the clone; a sixth use a WEAK order - comparator on a key, elements distinguishable by a tag - where only balance is asserted); " + rule,
 	Gen: func(t *rapid.T) Case {
 		dup := rapid.IntRange(0, 4).Draw(t, "dup") == 0
 		var u int
@@ -378,10 +412,19 @@ var specHist = pbt.Register(&pbt.Spec[Case]{
 			classes = []int{0, 4, 10, 25, 60, 140}
 		}
 		addBias := rapid.SampledFrom([]int{50, 65, 80}).Draw(t, "addbias")
+		withClone := rapid.IntRange(0, 2).Draw(t, "withclone") == 0
 		op := rapid.Custom(func(t *rapid.T) Op {
+			if withClone && rapid.IntRange(0, 19).Draw(t, "cl") == 0 {
+				return Op{Clone: true}
+			}
 			return Op{Add: rapid.IntRange(0, 99).Draw(t, "a") < addBias, V: rapid.IntRange(0, u).Draw(t, "v")}
 		})
-		return Case{Dup: dup, Ops: pbt.OpsOf(t, op, classes, "ops")}
+		weak := rapid.IntRange(0, 5).Draw(t, "weak") == 0
+		if weak {
+			dup = false
+			classes = []int{0, 4, 10, 25, 60}
+		}
+		return Case{Dup: dup, Weak: weak, Ops: pbt.OpsOf(t, op, classes, "ops")}
 	},
 	Run: Run, Quick: 5000, Thorough: 50000,
 })
